@@ -234,7 +234,8 @@ func (s *Source) next(plan Plan) (*lib.Bundle, error) {
 
 type Node struct {
 	BC       *blockchain.Blockchain
-	DB       *memory.Database
+	DB       *memory.Database // the data (copies, direct reads of the harness)
+	F        *faultDB         // what the Blockchain sees: DB with injectable failures
 	NewState bool
 	Pruner   bool // use pruner.InitializeRunningEventFilter (what cmd/juno wires) instead of core's
 }
@@ -244,7 +245,8 @@ func (n *Node) open() {
 	if n.Pruner {
 		opts = append(opts, blockchain.WithRunningEventFilterInitializer(pruner.InitializeRunningEventFilter))
 	}
-	n.BC = lib.NodeOn(n.DB, lib.TestNetwork(), n.NewState, opts...)
+	n.F = newFaultDB(n.DB)
+	n.BC = lib.NodeOn(n.F, lib.TestNetwork(), n.NewState, opts...)
 }
 
 func newNode(newState, prunerInit bool) *Node {
@@ -289,4 +291,16 @@ func (n *Node) persistedState() string {
 		floor = f
 	}
 	return "P=[" + strings.Join(wins, ",") + "] S=" + snap + fmt.Sprintf(" F=%d", floor)
+}
+
+// writeAggUnderKey stores an aggregated filter under the key of another window.
+func writeAggUnderKey(d *memory.Database, flt *core.AggregatedBloomFilter, from uint64) error {
+	var got []byte
+	if err := d.Get(db.AggregatedBloomFilterKey(flt.FromBlock(), flt.ToBlock()), func(v []byte) error {
+		got = append([]byte{}, v...)
+		return nil
+	}); err != nil {
+		return err
+	}
+	return d.Put(db.AggregatedBloomFilterKey(from, from+uint64(W)-1), got)
 }
